@@ -758,6 +758,19 @@ impl Inner {
                     res,
                 );
             } else {
+                // The GOAWAY process has begun. Streams the peer opened above
+                // the cut-off were ignored, so are their window updates.
+                if !self.counts.peer().is_local_init(id)
+                    && id > self.actions.recv.max_stream_id()
+                {
+                    tracing::trace!(
+                        "id ({:?}) > max_stream_id ({:?}), ignoring WINDOW_UPDATE",
+                        id,
+                        self.actions.recv.max_stream_id()
+                    );
+                    return Ok(());
+                }
+
                 self.actions
                     .ensure_not_idle(self.counts.peer(), id)
                     .map_err(Error::library_go_away)?;
